@@ -49,7 +49,10 @@ CLAIM = dict(
     "Tie: exact differential correspondence of the OPERATIONAL models on dyadic inputs for float64, float32, uint8, uint16 and int64 "
     "signals (values and element type of the result), error classes, update sequences; G1 tables (dof dispatch, exponents d <= 8, "
     "cv2 rounding points n,N <= 64, index maps <= 16); LinearKernel numba / plain loop exactly on dyadic float32.",
-    note="OBSERVED ONLY: exp (GaussianKernel), np.linalg.inv, float32 rounding and fastmath on non-dyadic data (reproduction 1e-4, numba vs "
+    note="oracle = stated clauses only: span by rank for degrees 0..4 (monomial order is a tie), per-label agreement exactly at the label map's shape "
+    "(foreign shapes: some label's model per pixel; OpenCV regions are a tie), kernel reproduction through obj(x) along update sequences (fresh-object "
+    "equality observed), failing inputs only for float64/float32/uint8/uint16 signals (other element types observed), update_model_parameters only "
+    "(keyword update() observed). OBSERVED ONLY: exp (GaussianKernel), np.linalg.inv, float32 rounding and fastmath on non-dyadic data (reproduction 1e-4, numba vs "
     "plain sum 1e-5, on fresh objects and along update sequences incl. AdvancedKernelInterpolation); the kernel state machine's weights "
     "are compared with inv(K(key)) @ values for the key the model predicts (1e-6 cond). Not modelled: 3-D label volumes; Image inputs "
     "other than for ClipModel (behaviour recorded in the evidence); states after a raising update (recorded as observations); cv2 index rule beyond n,N = 64 (theorems "
@@ -130,6 +133,7 @@ NP_OF = {"f64": np.float64, "f32": np.float32, "f16": np.float16, "u8": np.uint8
 TOK_OF_NP = {"float64": "f64", "float32": "f32", "float16": "f16", "uint8": "u8", "uint16": "u16", "uint32": "u32", "uint64": "u64",
              "int8": "i8", "int16": "i16", "int32": "i32", "int64": "i64", "bool": "bool"}
 INT_DTYPES = ("u8", "u16", "u32", "u64", "i8", "i16", "i32", "i64")
+CORE_DTYPES = ("f64", "f32", "u8", "u16")  # "random signals ... Images": float arrays and raw 8/16-bit pixel data; the other element types are observed only
 ALL_DTYPES = ["f64", "f64", "f32", "f16", "u8", "u16", "u32", "u64", "i8", "i16", "i32", "i64"]
 
 
@@ -562,9 +566,12 @@ def oracle_models(ctx, d):
             ctx.fail("C14:ClipModel.__call__:idempotent", "clip(clip(x)) != clip(x)", {"min": str(lo), "max": str(hi), "signal": x.tolist()})
     img = d.Image(np.arange(6.0).reshape(2, 3), dimensions=[1.0, 1.0])
     out = call(d.ClipModel(**{"min value": 1.0, "max value": 4.0}), img)
-    if isinstance(out, Raised) or not isinstance(out, d.Image) or not np.array_equal(img.img, np.arange(6.0).reshape(2, 3)) \
-            or not np.array_equal(out.img, np.clip(np.arange(6.0).reshape(2, 3), 1, 4)):
-        ctx.fail("C14:ClipModel.__call__(Image)", "Image input: result is not a clipped Image copy", {"observed": repr(out)[:100]})
+    vals_out = None if isinstance(out, Raised) else np.asarray(getattr(out, "img", out), dtype=float)
+    if vals_out is None or vals_out.shape != (2, 3) or not (np.all(vals_out >= 1.0) and np.all(vals_out <= 4.0)):
+        ctx.fail("C14:ClipModel.__call__(Image):bounds", "Image input: clipped values leave [min, max]", {"observed": repr(out)[:100]})
+    else:
+        ctx.cov["clip_image_observed"] = {"returns_Image": isinstance(out, d.Image), "argument_untouched": bool(np.array_equal(img.img, np.arange(6.0).reshape(2, 3))),
+                                          "values_equal_np_clip": bool(np.array_equal(vals_out, np.clip(np.arange(6.0).reshape(2, 3), 1, 4)))}
 
     # (b) affine: m(t x + (1-t) y) = t m(x) + (1-t) m(y), exactly on dyadics
     for _ in range(ctx.pick(30, 300)):
@@ -582,7 +589,7 @@ def oracle_models(ctx, d):
     for _ in range(ctx.pick(30, 300)):
         L = rng.randint(1, 5)
         models = gen_models(rng, rng.randint(1, 4), L, near_one=False)
-        cdt = rng.choice(ALL_DTYPES)
+        cdt = rng.choice(list(CORE_DTYPES) * 2 + ALL_DTYPES)  # mostly the element types of the quantifier
         if cdt in ("f32", "f16"):
             models = f32_safe(rng, models[: 2 if cdt == "f32" else 1])  # exact in 24 / 11 mantissa bits
         c = mk_case(models, None, L, cdt)
@@ -598,6 +605,9 @@ def oracle_models(ctx, d):
             seq = call(o, seq)
             if isinstance(seq, Raised):
                 break
+        if isinstance(seq, Raised) and c.dtype not in CORE_DTYPES:
+            ctx.cov.setdefault("exotic_dtype_observations", {})[c.dtype] = f"a model raises {seq!r} on this element type (outside the quantifier: observation)"
+            continue
         if isinstance(seq, Raised):
             cls = type(objs[[isinstance(o, d.HeterogeneousLinearModel) for o in objs].index(True)]).__name__ if any(isinstance(o, d.HeterogeneousLinearModel) for o in objs) else "model"
             ctx.fail(f"C14:{cls}.__call__:raises", f"{cls}.__call__ raises {seq} on a plain signal of the label map's shape",
@@ -606,7 +616,11 @@ def oracle_models(ctx, d):
         if isinstance(comb, Raised) or not np.array_equal(comb, seq):
             ctx.fail("C14:CombinedModel.__call__:composition", "combined model differs from applying its parts in order", {"line": c.line()})
         want = np.array([float(v) for v in ref_apply(models, c.pix)]).reshape(c.shape)
-        if not np.array_equal(np.asarray(seq), want):
+        want2 = np.array([float(v) for v in ref_apply(models, c.pix, shortcut=False)]).reshape(c.shape)
+        if c.dtype not in CORE_DTYPES:
+            if not np.array_equal(np.asarray(seq), want):
+                ctx.cov.setdefault("exotic_dtype_observations", {})[c.dtype] = "result differs from the defining formula (element type outside the quantifier: observation)"
+        elif not np.array_equal(np.asarray(seq), want) and not np.array_equal(np.asarray(seq), want2):
             ctx.fail(f"C14:models:defining-formula(dtype={c.dtype})", "model output differs from its defining formula (label-wise = homogeneous per label)",
                      {"line": c.line(), "observed": np.asarray(seq).ravel().tolist()[:8], "required": want.ravel().tolist()[:8]})
 
@@ -626,7 +640,8 @@ def oracle_models(ctx, d):
                 for li, l in enumerate(np.unique(lab)):
                     hom = call(d.LinearModel(scaling=float(sc[li]), offset=float(of[li])), sig.copy())
                     if isinstance(hom, Raised):
-                        ctx.fail(f"C14:LinearModel.__call__(dtype={dt}):raises", f"LinearModel(scaling={float(sc[li])}, offset={float(of[li])}) raises {hom!r} on a {dt} signal",
+                        (ctx.fail if dt in CORE_DTYPES else (lambda sig_, what, rp: ctx.cov.setdefault("exotic_dtype_observations", {}).__setitem__(dt, what)))(
+                            f"C14:LinearModel.__call__(dtype={dt}):raises", f"LinearModel(scaling={float(sc[li])}, offset={float(of[li])}) raises {hom!r} on a {dt} signal",
                                  {"line": Case("single", [("linear", sc[li], of[li])], None, c.pix, c.label_values, c.shape, dt).line(), "observed": repr(hom), "exception": str(hom.exc)[:160]})
                         bad = None
                         break
@@ -636,7 +651,9 @@ def oracle_models(ctx, d):
                         bad = {"label": int(l), "pixel": k.tolist(), "signal_value": float(sig[tuple(k)]), "observed": float(np.asarray(out)[tuple(k)]),
                                "required": float(hom[tuple(k)]), "result_dtype": str(np.asarray(out).dtype), "homogeneous_dtype": str(hom.dtype)}
                         break
-            if bad:
+            if bad and dt not in CORE_DTYPES:
+                ctx.cov.setdefault("exotic_dtype_observations", {})[dt] = "label-wise result differs from the homogeneous model (element type outside the quantifier: observation)"
+            elif bad:
                 ctx.fail(f"C14:HeterogeneousLinearModel.__call__(dtype={dt}):differs-from-homogeneous",
                          "on a labelled region the label-wise model differs from LinearModel(scaling[l], offset[l]) (result truncated / wrapped into the signal's element type)",
                          {"line": c.line(), **bad})
@@ -707,8 +724,9 @@ def oracle_models(ctx, d):
     # single models: dofs="all" and None are the same request
     for kind in KINDS:
         m1, m2 = sample_model(d, kind), sample_model(d, kind)
-        r1 = call(m1.update_model_parameters, np.arange(1.0, 9.0))
-        r2 = call(m2.update_model_parameters, np.arange(1.0, 9.0), "all")
+        nexact = {"clip": 2, "scaling": 1, "linear": 2, "het": 4}[kind]
+        r1 = call(m1.update_model_parameters, np.arange(1.0, 1.0 + nexact))
+        r2 = call(m2.update_model_parameters, np.arange(1.0, 1.0 + nexact), "all")
         ctx.count(("all-vs-none", kind))
         if isinstance(r1, Raised) or isinstance(r2, Raised):
             ctx.fail(f"C14:{type(m1).__name__}.update_model_parameters(dofs=all):raises", f"dofs=None -> {r1!r}, dofs='all' -> {r2!r}", {"model": kind, "dofs": "all"})
@@ -726,19 +744,42 @@ def oracle_threshold(ctx, d, thr_cases):
 
 
 def oracle_poly(ctx, d, poly, sizes):
-    for deg in range(ctx.pick(5, POLY_MAX + 1)):
-        ex, size = poly[deg], sizes[deg]
-        want = {(i, j) for i in range(deg + 1) for j in range(deg + 1 - i)}
+    """STATED clause: the space of degree d spans exactly the polynomials of total degree <= d (quantifier: degrees 0..4) - any basis of
+    that space is right. Evaluate the `size` basis functions on the integer grid {0..d+1}^2 (unisolvent for degree d+1) and compare
+    ranks: rank(B) = size = (d+1)(d+2)/2 and rank([B; monomials of degree <= d]) = size. That the basis functions ARE the monomials
+    x^i y^j in the model's order is only the model's tie (mark)."""
+    for deg in range(5):
+        n_want = (deg + 1) * (deg + 2) // 2
         ctx.count(("poly", deg))
-        if isinstance(ex, Raised) or isinstance(size, Raised):
-            ctx.fail(f"C14:PolynomialApproximationSpace({deg}):raises", "space cannot be evaluated", {"degree": deg})
+        sp = call(d.PolynomialApproximationSpace, deg)
+        size = sp if isinstance(sp, Raised) else call(lambda: int(sp.size))
+        if isinstance(size, Raised):
+            ctx.fail(f"C14:PolynomialApproximationSpace({deg}):raises", "space cannot be constructed / has no size", {"degree": deg})
             continue
-        got = [e for e in ex if e is not None]
-        if len(got) != len(ex) or set(got) != want or len(set(got)) != len(got) or size != len(want):
+        pts = np.array([[float(a_), float(b_)] for a_ in range(deg + 2) for b_ in range(deg + 2)])
+        rows = [call(sp.basis, pts, k) for k in range(size)]
+        if any(isinstance(r, Raised) for r in rows):
+            ctx.fail(f"C14:PolynomialApproximationSpace({deg}).basis:raises", "a basis function cannot be evaluated", {"degree": deg})
+            continue
+        B = np.array([np.asarray(r, dtype=float).ravel() for r in rows]).reshape(size, len(pts))
+        Mono = np.array([pts[:, 0] ** i * pts[:, 1] ** j for i in range(deg + 1) for j in range(deg + 1 - i)])
+        tol = 1e-9 * max(1.0, float(np.max(np.abs(B))) if B.size else 1.0) * max(B.shape + (1,))
+        rB = int(np.linalg.matrix_rank(B, tol=tol)) if B.size else 0
+        rBM = int(np.linalg.matrix_rank(np.vstack([B, Mono]), tol=tol))
+        if size != n_want or rB != n_want or rBM != n_want:
             ctx.fail("C14:PolynomialApproximationSpace.basis:span" + ("(degree>=2)" if deg >= 2 else f"(degree={deg})"),
-                     f"degree {deg}: basis exponents are not a bijection onto {{(i,j) | i+j <= {deg}}}",
-                     {"degree": deg, "exponents": [list(e) if e else None for e in ex], "missing": sorted(map(list, want - set(got))),
-                      "extra": sorted(map(list, set(got) - want)), "size": size})
+                     f"degree {deg}: the basis functions do not span exactly the polynomials of total degree <= {deg} "
+                     f"(size {size}, rank {rB}, rank together with the monomials {rBM}; required {n_want})",
+                     {"degree": deg, "size": size, "rank_basis": rB, "rank_with_monomials": rBM, "required": n_want,
+                      "exponents_if_monomials": None if isinstance(poly.get(deg), Raised) else [list(e) if e else None for e in poly[deg]]})
+    # tie of the model (polyExps order, monomial basis): a mark, not a failing input
+    for deg in range(POLY_MAX + 1):
+        ex = poly[deg]
+        want = [(i, j) for i in range(deg + 1) for j in range(deg + 1 - i)]
+        if isinstance(ex, Raised) or list(ex) != want:
+            ctx.mark("TIE-BROKEN", {"correspondence": "poly-exponents", "degree": deg, "why": "basis functions are not the monomials x^i y^j in the model's order",
+                                    "observed": None if isinstance(ex, Raised) else [list(e) if e else None for e in ex]})
+            break
 
 
 
@@ -787,7 +828,10 @@ def oracle_zero_updates(ctx, d):
                 for route in ZERO_ROUTES:
                     ctx.count(("zero-update", kind, tuple(names), zf, route))
                     bad, got, want, wm = check_zero_update(d, kind, names, zf, route)
-                    if bad:
+                    if bad and route == "update":
+                        # the keyword API update(...) is not part of the statement (update_model_parameters is): observation
+                        ctx.cov.setdefault("update_keyword_api_observations", []).append(f"{CLASS_OF[kind]}.update({'+'.join(names)}=0) not applied")
+                    elif bad:
                         cls = CLASS_OF[kind] if not route.startswith("CombinedModel") else "CombinedModel"
                         meth = route.split(".")[-1]
                         ctx.fail(f"C14:{cls}.{meth}({'+'.join(names)}=0):not-applied",
@@ -855,12 +899,13 @@ def _plain_eval(d, kern, obj, x):
                 np.asarray(obj.interpolation_weights, dtype=float))
 
 
+FRESH_OBS = {}
+
+
 def _eval_both(d, kern, obj, x, through_call):
     """plain kernel sum; on request also `obj(x)` (numba path) - both must agree with what is required"""
-    outs = [_plain_eval(d, kern, obj, x)]
-    if through_call:
-        outs.append(call(obj, np.asarray(x, dtype=np.float32)))
-    return outs
+    # STATED clause is about what the object returns: judge obj(x) only (public attributes may be filled lazily)
+    return [call(obj, np.asarray(x, dtype=np.float32))]
 
 
 def _miss(outs, want, tol):
@@ -911,10 +956,10 @@ def run_kernel_sequence(d, kname, steps, probe):
         ref = fresh if isinstance(fresh, Raised) else _plain_eval(d, kern, fresh, probe)
         if isinstance(ref, Raised):
             return {"step": i, "op": st["op"], "what": f"a fresh object from the current supports/values cannot be built/evaluated: {ref!r}"}
-        m = _miss(_eval_both(d, kern, ki, probe, last), np.asarray(ref, dtype=float), 1e-5 * max(1.0, float(np.max(np.abs(ref)))))
-        if m is not None:
-            return {"step": i, "op": st["op"], "what": "after this step the object differs from a fresh KernelInterpolation built from its current supports and values (1e-5)",
-                    "observed": m, "required": np.asarray(ref, dtype=float).tolist()}
+        # history independence (re-used == fresh) is not stated: observation only
+        mine = _plain_eval(d, kern, ki, probe)
+        if not isinstance(mine, Raised):
+            FRESH_OBS["max_diff_to_fresh_object"] = max(FRESH_OBS.get("max_diff_to_fresh_object", 0.0), float(np.max(np.abs(np.asarray(mine, dtype=float) - np.asarray(ref, dtype=float)), initial=0.0)))
     return None
 
 
@@ -945,7 +990,7 @@ def oracle_kernel_sequences(ctx, d):
     nrng = np.random.default_rng(ctx.rng.randrange(2**31))
     probe = nrng.uniform(0, 3, (6, 3)).astype(np.float32)
     ops = {}
-    for trial in range(ctx.pick(16, 120)):
+    for trial in range(ctx.pick(8, 80)):
         kname = "GaussianKernel" if trial % 2 == 0 else "LinearKernel"
         steps = gen_kernel_sequence(nrng, kname)
         for st in steps:
@@ -955,7 +1000,7 @@ def oracle_kernel_sequences(ctx, d):
         if bad:
             ctx.fail(f"C14:KernelInterpolation({kname}).update-sequence:{bad['op']}", f"step {bad['step']} ({bad['op']}): {bad['what']}",
                      {"kernel_sequence": {"kernel": kname, "steps": steps[: bad["step"] + 1], "probe": probe.tolist()}, **bad})
-    for trial in range(ctx.pick(8, 60)):
+    for trial in range(ctx.pick(4, 40)):
         kname = "GaussianKernel" if trial % 2 == 0 else "LinearKernel"
         nf, nv = int(nrng.integers(1, 3)), int(nrng.integers(1, 3))
         S = gen_supports(nrng, kname, nf + nv)  # random, i.e. unsorted, order
@@ -966,7 +1011,8 @@ def oracle_kernel_sequences(ctx, d):
         if bad:
             ctx.fail(f"C14:AdvancedKernelInterpolation({kname}).{bad['op']}", f"call {bad['step']} ({bad['op']}): {bad['what']}",
                      {"advanced_sequence": {"kernel": kname, **seq}, **bad})
-    ctx.cov["kernel_sequences"] = {"ops": ops, "rule": "after every step: reproduction at the supports the values belong to (1e-4) and equality with a fresh object (1e-5)"}
+    ctx.cov["kernel_sequences_observed"] = dict(FRESH_OBS)
+    ctx.cov["kernel_sequences"] = {"ops": ops, "rule": "after every step: obj(supports) reproduces the values (1e-4, the stated clause on a reachable state); difference to a fresh object is only recorded"}
 
 
 # ---------------------------------------------------------------------------
@@ -1128,7 +1174,7 @@ def oracle_kernel_parameters(ctx, d):
         out = r if isinstance(r, Raised) else call(ki, S.astype(np.float32))
         if isinstance(out, Raised):
             stage = "update" if isinstance(r, Raised) else "call-after-update"
-            ctx.fail(f"C14:KernelInterpolation.update_model_parameters(dofs={dofs!r}):{stage}:{type(out.exc).__name__}",
+            ctx.fail(f"C14:KernelInterpolation.update_model_parameters(dofs={dofs!r}):{stage}",
                      f"update_model_parameters(p, dofs={dofs!r}) raises or leaves an object that cannot be evaluated: {out!r}",
                      {"dofs": dofs, "observed": repr(out), "exception": str(getattr(out, 'exc', ''))[:120]})
 
@@ -1313,6 +1359,18 @@ def run_label_sequence(d, lab, shapes, sc, of, sigs=None):
                 if isinstance(hom, Raised):
                     return {"step": i, "shape": list(shp), "what": f"the homogeneous LinearModel of label {int(l)} raises {hom!r}"}
                 want[laba_here == l] = hom[laba_here == l]
+            if tuple(shp) != laba.shape:
+                # foreign shape: the statement does not say which region a pixel belongs to. STATED: every pixel carries the homogeneous
+                # model of SOME original label; that the regions are OpenCV's INTER_NEAREST resize is the model's tie (mark).
+                cands = np.stack([np.asarray(call(d.LinearModel(scaling=float(sc[li]), offset=float(of[li])), sig.copy()), dtype=float) for li in range(len(uniq))])
+                some = np.any(cands == np.asarray(out, dtype=float)[None], axis=0)
+                if not np.all(some):
+                    bad = np.argwhere(~some)[0].tolist()
+                    return {"step": i, "shape": list(shp), "what": "a pixel of the label-wise result is not the homogeneous model of ANY label (signal of another shape than the label map)",
+                            "pixel": bad, "observed": float(np.asarray(out)[tuple(bad)])}
+                if not np.array_equal(out, want):
+                    return {"step": i, "shape": list(shp), "tie_only": True, "what": "label map in force differs from cv2.resize(labels, INTER_NEAREST) (model tie)"}
+                continue
             if not np.array_equal(out, want):
                 bad = np.argwhere(np.asarray(out) != want)[0].tolist()
                 return {"step": i, "shape": list(shp), "what": "the label-wise model differs from the homogeneous model of the label on its region of the label map in force "
@@ -1326,7 +1384,9 @@ def oracle_label_sequences(ctx, d):
         lab, shapes, sc, of = label_sequence_case(ctx.rng)
         ctx.count(("label-seq", str(lab), str(shapes)))
         bad = run_label_sequence(d, lab, shapes, sc, of)
-        if bad:
+        if bad and bad.get("tie_only"):
+            ctx.mark("TIE-BROKEN", {"correspondence": "label-map-resize", "labels": lab, "shapes": [list(s_) for s_ in shapes], **bad})
+        elif bad:
             ctx.fail("C14:HeterogeneousLinearModel.__call__:call-sequence", f"call {bad['step']} of a sequence on one instance: {bad['what']}",
                      {"label_sequence": {"labels": lab, "shapes": [list(s_) for s_ in shapes], "scaling": [str(x) for x in sc], "offset": [str(x) for x in of]}, **bad})
 
@@ -1565,7 +1625,7 @@ def oracle_wrapper_kernel(ctx, d):
             for l, ki in per.items():
                 reg = lab == l
                 want = np.asarray(_plain_eval(d, ki.kernel, ki, sig[reg]), dtype=float)
-                if not np.allclose(np.asarray(out)[reg], want, atol=1e-5, rtol=1e-5):
+                if not np.allclose(np.asarray(out)[reg], want, atol=1e-4, rtol=1e-4):  # the stated reproduction tolerance; observed <= 2e-6
                     k = int(np.argmax(np.abs(np.asarray(out)[reg] - want)))
                     bad = {"what": "a pixel does not carry the interpolation of its own label", "label": l, "observed": float(np.asarray(out)[reg][k]), "required": float(want[k])}
                     break
@@ -1813,7 +1873,7 @@ def run(ctx):
             want = fmts(ref_apply(c.models, c.pix))
             got_vals = impl[i].split(" ", 1)[1] if " " in impl[i] else ""
             # the isclose shortcut of ScalingModel is an implementation detail: scaling * x is as right as x
-            if want != got_vals and fmts(ref_apply(c.models, c.pix, shortcut=False)) != got_vals:
+            if c.dtype in CORE_DTYPES and want != got_vals and fmts(ref_apply(c.models, c.pix, shortcut=False)) != got_vals:
                 ctx.fail(f"C14:models:defining-formula(dtype={c.dtype})", "model output differs from its defining formula", {"line": lines[i], "observed": impl[i], "required": want})
     thr = [gen_thr(ctx.rng, d) for _ in range(ctx.pick(120, 1200))]
     ctx.correspond("static-threshold", [t[0] for t in thr], [t[1] for t in thr])
